@@ -31,7 +31,12 @@ func scenarioRoute() int {
 		rule += "oracle = routing model (Route > static route > service backend > drop; unsupported transport drops); every observation socket is checked behind the barrier; distinct = decision cells observed"
 	}
 	run := ev.New(prop, "exploration", rule)
-	w, err := wire.NewWorld(*flagBin, *flagDir, wire.Opts{Services: 16, TCPBackend: true})
+	w, err := wire.NewWorld(*flagBin, *flagDir, wire.Opts{Services: 16, TCPBackend: true, Mutate: func(c *wire.Config, p wire.Plan) {
+		// two services listen on neither transport at 5060: a name without port is no way to say them
+		for _, s := range []int{6, 14} {
+			c.Services[s].Listens[0].UDPPort = 5080
+		}
+	}})
 	if err != nil {
 		fmt.Println("HARNESS-ERROR world:", err)
 		return 2
@@ -330,6 +335,13 @@ func genRouteCase(w *wire.World, g *sip.Gen, i int) *routeCase {
 		return routeEntry(g, host, port, tr, true), "next:" + hs + "/" + strings.ToLower(trs)
 	}
 	nearMiss := func() (wire.RouteEntry, string) {
+		if myPort != 5060 && g.R.Intn(4) == 0 {
+			// the listener's name without a port means port 5060 - where this listener is not
+			if g.R.Intn(2) == 0 {
+				return routeEntry(g, wire.AliasName(sidx), 0, "", true), "miss:alias-noport-on-other-port"
+			}
+			return routeEntry(g, wire.SelfName, 0, "", true), "miss:self-name-noport-on-other-port"
+		}
 		switch g.R.Intn(4) {
 		case 0: // right host, wrong port
 			return routeEntry(g, sv.IP, myPort+1, "", false), "miss:wrong-port"
